@@ -38,11 +38,14 @@
 (* maximal sequences of small steps, in every interleaving; the states of  *)
 (* the exported graph are exactly the quiescent ones the driver can see.   *)
 (*                                                                         *)
-(* Environment discipline (keeps the outcome of the handler's select       *)
-(* determined, since the driver cannot force Go's choice between two ready *)
-(* arms): while the handler is inside a callback at most ONE thing waits   *)
-(* for it (a MarkAsConfirmed caller, a buffered tick, or the rebroadcast's *)
-(* confirmation report) - Waiters(y) <= 1.  Stop may come at any time.     *)
+(* Environment discipline: while the handler is inside a callback at most   *)
+(* MaxWait parties wait for it (a MarkAsConfirmed caller, a buffered tick,  *)
+(* the rebroadcast's confirmation report).  With two or more the handler's  *)
+(* select chooses among ready arms; every order is in Settle.  The only     *)
+(* order that matters is tick-before/after-MarkAsConfirmed while no         *)
+(* rebroadcast runs (the copy contains the tx or not); the observables may  *)
+(* reveal it only some steps later, so the walker follows all candidate     *)
+(* states.  Stop may come at any time.                                      *)
 (*                                                                         *)
 (* FixMarkQuit = MarkAsConfirmed selects on quit as well (the code after   *)
 (* the repair of defect 8); FALSE = plain send on confChan.                *)
@@ -55,6 +58,7 @@ CONSTANTS NTx,        \* transactions 1..NTx; parents of i are a subset of 1..i-
           Outs,       \* outcomes handed to the request handler's callback
           ROuts,      \* outcomes handed to a rebroadcast's callback
           FixMarkQuit,
+          MaxWait,    \* how many parties may wait for the busy handler at once (big steps)
           Fine        \* TRUE: small-step semantics (model-level check), FALSE: big steps (replay)
 
 VARIABLES s, abs, act, viol
@@ -197,7 +201,7 @@ S0 == [s EXCEPT !.lastB = 0]     \* bcRes reports a return in THIS step only
 
 Do(x0, op, tx, out) ==
   \E y \in Settle(x0) :
-     /\ Waiters(y) <= 1
+     /\ Waiters(y) <= MaxWait
      /\ s' = y
      /\ act' = [op |-> op, tx |-> tx, out |-> out, res |-> Res(op, ObsOf(y))]
      /\ abs' = AbsNext(abs, act', ObsOf(y))
